@@ -2036,8 +2036,11 @@ class ImportManager:
     self.imports = []
     self.module_selectors = {}
     self.names = set()
-    # Prefer to order `from` style imports first.
-    for statement in sorted(imports, key=lambda s: (s.module, not s.is_from)):
+    # Prefer to order `from` style imports first. The alias breaks ties between
+    # several imports of one module in the same style, so that the result does
+    # not depend on the iteration order of `imports` (a set).
+    for statement in sorted(
+        imports, key=lambda s: (s.module, not s.is_from, s.alias or '')):
       self.add_import(statement)
 
   @property
